@@ -73,7 +73,7 @@ def is_num(v):
 
 
 class PE:
-    def __init__(self, model, atoms=None, preds=None, max_depth=4, symbolic_names=True, call_hook=None, attr_hook=None, loop_hook=None):
+    def __init__(self, model, atoms=None, preds=None, max_depth=4, symbolic_names=True, call_hook=None, attr_hook=None, loop_hook=None, atoms_not_none=False, default_pred=None, compare_hook=None):
         self.model = model
         self.atoms = atoms or {}            # normalised text -> value (P / const)
         self.preds = preds or {}            # normalised test text -> bool
@@ -82,6 +82,9 @@ class PE:
         self.attr_hook = attr_hook
         self.loop_hook = loop_hook          # (pe, For stmt, env) -> True if it bound the loop targets itself (generic iteration of an unknown collection)
         self.symbolic_names = symbolic_names
+        self.atoms_not_none = atoms_not_none    # symbolic values stand for objects: `v is None` is False (None is passed explicitly where wanted)
+        self.compare_hook = compare_hook        # (pe, op, left value, right value) -> value or NotImplemented (elementwise comparisons that are data, not decisions)
+        self.default_pred = default_pred        # test text -> bool | None, consulted before forking
 
     # ------------------------------------------------------------------------------------------------ driver
     def paths(self, func, args=None, max_paths=128, body=None):
@@ -91,10 +94,11 @@ class PE:
         while work:
             dec = work.pop()
             self.decisions, self.cursor = dec, 0
-            self.conds, self.stores, self.calls, self.mem = [], [], [], {}
+            self.conds, self.stores, self.calls, self.mem, self.trace = [], [], [], {}, []
             try:
                 kind, val, env = self._run(func, dict(args or {}), body, 0)
                 out.append(Outcome(kind, val, list(self.conds), list(self.stores), list(self.calls), env, dict(self.mem)))
+                out[-1].trace = list(self.trace)
             except NeedDecision:
                 work.append(dec + [False])
                 work.append(dec + [True])
@@ -133,6 +137,11 @@ class PE:
             return v
         for t, v in self.conds:
             if t == test_text:
+                return v
+        if self.default_pred is not None:
+            v = self.default_pred(test_text)
+            if v is not None:
+                self.conds.append((test_text, v))
                 return v
         if self.cursor < len(self.decisions):
             v = self.decisions[self.cursor]
@@ -228,9 +237,19 @@ class PE:
     def assign(self, t, v, env, func, depth, stmt):
         if isinstance(t, ast.Name):
             env[t.id] = v
+            self.trace.append((func.qualname, t.id, stmt))
         elif isinstance(t, (ast.Tuple, ast.List)):
-            if isinstance(v, (list, tuple)) and len(v) == len(t.elts) and not any(isinstance(e, ast.Starred) for e in t.elts):
+            stars = [i for i, e in enumerate(t.elts) if isinstance(e, ast.Starred)]
+            if isinstance(v, (list, tuple)) and len(v) == len(t.elts) and not stars:
                 for e, x in zip(t.elts, v):
+                    self.assign(e, x, env, func, depth, stmt)
+            elif isinstance(v, (list, tuple)) and len(stars) == 1 and len(v) >= len(t.elts) - 1:
+                i = stars[0]
+                tail = len(t.elts) - i - 1
+                for e, x in zip(t.elts[:i], v[:i]):
+                    self.assign(e, x, env, func, depth, stmt)
+                self.assign(t.elts[i].value, list(v[i:len(v) - tail]), env, func, depth, stmt)
+                for e, x in zip(t.elts[i + 1:], v[len(v) - tail:] if tail else []):
                     self.assign(e, x, env, func, depth, stmt)
             elif isinstance(v, P) and len(v.t) == 1 and list(v.t.values())[0] == 1 and len(list(v.t)[0]) == 1 and list(v.t)[0][0][1] == 1 \
                     and not any(isinstance(e, ast.Starred) for e in t.elts):
@@ -501,6 +520,10 @@ class PE:
 
     def compare(self, e, env, func, depth):
         vals = [self.expr(e.left, env, func, depth)] + [self.expr(c, env, func, depth) for c in e.comparators]
+        if self.compare_hook is not None and len(e.ops) == 1:
+            r = self.compare_hook(self, e.ops[0], vals[0], vals[1])
+            if r is not NotImplemented:
+                return r
         res = True
         for i, op in enumerate(e.ops):
             a, b = vals[i], vals[i + 1]
@@ -526,6 +549,8 @@ class PE:
                 if other is None:
                     return isinstance(op, ast.Is)
                 if isinstance(other, basic) or isinstance(other, (list, tuple, dict)):
+                    return isinstance(op, ast.IsNot)
+                if self.atoms_not_none and isinstance(other, (P, Opaque)):
                     return isinstance(op, ast.IsNot)
                 return None
             return None
